@@ -285,17 +285,21 @@ Section P.
     - kind Hk Hl. repeat step; reflexivity.
   Qed.
 
-  (* with CLIP both refuse CIRCLE / OBJECT / SECTOR — in different words *)
+  (* with CLIP both refuse CIRCLE / OBJECT / SECTOR / GET — in different words *)
   Lemma switch_clip_refused cmd typ vs :
     is_empty typ = false ->
-    beq (lower typ) "circle" || beq (lower typ) "object" || beq (lower typ) "sector" = true ->
+    beq (lower typ) "circle" || beq (lower typ) "object" || beq (lower typ) "sector"
+      || beq (lower typ) "get" = true ->
     (exists m, search_switch cmd true (lower typ) vs = Err (EInvalidArg (lit "cannot clip with " ++ m)))
     /\ parse_area true (typ :: vs) = Err (EClipType typ).
   Proof.
     intros Hne Hk. unfold AreaParse.parse_area. rewrite (need_tok_cons _ _ Hne).
     cbn [bind]; cbn beta iota.
-    repeat (apply orb_true_iff in Hk; destruct Hk as [Hk|Hk]); kind Hk Hl;
-      (split; [eexists; reflexivity | reflexivity]).
+    repeat (apply orb_true_iff in Hk; destruct Hk as [Hk|Hk]); kind Hk Hl.
+    - split; [eexists; reflexivity | reflexivity].
+    - split; [exists (lit "object"); reflexivity | reflexivity].
+    - split; [eexists; reflexivity | reflexivity].
+    - split; [exists (lit "get"); reflexivity | reflexivity].
   Qed.
 
   (* ---------- strconv: the same digits read by Atoi / ParseInt and by ParseUint ---------- *)
@@ -415,7 +419,7 @@ Section P.
   (* ================================================================ words *)
 
   Lemma types_not_nearby cmd l : is_nearby cmd = false ->
-    types_has cmd l = (beq l "geo" || beq l "bounds" || beq l "hash" || beq l "tile"
+    types_has cmd l = (beq l "bounds" || beq l "hash" || beq l "tile"
                        || beq l "quadkey" || beq l "get" || beq l "object" || beq l "circle"
                        || beq l "point" || beq l "sector" || beq l "mvt").
   Proof. destruct cmd; [discriminate| |]; reflexivity. Qed.
@@ -560,7 +564,7 @@ Section P.
   (* what the search side answers, read on the TEST side *)
   Definition obj_answer (o : area) : tres :=
     match o with
-    | ANil | AClip _ _ => TErr ENumArgs      (* GEO, or a CLIPBY followed: TEST knows neither *)
+    | ANil | AClip _ _ => TErr ENumArgs      (* a CLIPBY followed: TEST does not know it *)
     | a => TOk false a
     end.
   Definition expected_test (r : sres) : tres :=
@@ -606,12 +610,12 @@ Section P.
       as [[obj tile]| | |] eqn:Hcl; cbn [bind] in Hs; try discriminate.
     inversion Hs; subst r; clear Hs. unfold expected_test; cbn [s_mvt s_obj].
     rewrite (types_not_nearby _ _ Hnb) in Hty.
-    assert (Hunknown : forall K, (K = "geo"%string \/ K = "mvt"%string) -> lower typ = lit K ->
+    assert (Hunknown : lower typ = lit "mvt" ->
               test_tail isect false (typ :: vs1) = TErr ENumArgs).
-    { intros K HK Hl.
-      rewrite test_tail_unfold; [|exact Hne|rewrite Hl; destruct HK as [-> | ->]; vm_compute; reflexivity].
+    { intros Hl.
+      rewrite test_tail_unfold; [|exact Hne|rewrite Hl; vm_compute; reflexivity].
       rewrite test_expr_unknown; [reflexivity|exact Hne|idtac..];
-        rewrite Hl; destruct HK as [-> | ->]; vm_compute; reflexivity. }
+        rewrite Hl; vm_compute; reflexivity. }
     assert (Hshared : forall tl, h = mkH (h_vs h) (h_obj h) tl false false None None ->
               is_area_word (lower typ) = true ->
               parse_area false (typ :: vs1) = Ok (h_vs h, h_obj h) ->
@@ -620,12 +624,6 @@ Section P.
     { intros tl Hh Hw Hpa. rewrite Hh in Hcl |- *. cbn [h_vs h_obj h_tile h_err h_mvt] in Hcl |- *.
       eapply after_head; eassumption. }
     repeat (apply orb_true_iff in Hty; destruct Hty as [Hty|Hty]).
-    - (* geo *) apply beq_true in Hty. rewrite (Hunknown "geo"%string (or_introl eq_refl) Hty).
-      rewrite Hty in Hsw. unfold AreaParse.search_switch in Hsw. lits_in Hsw. cbn [orb] in Hsw.
-      cbn beta iota in Hsw. inversion Hsw; subst h; clear Hsw. cbn [h_mvt h_vs h_obj h_tile h_err] in *.
-      destruct vs1 as [|tok rest'].
-      + rewrite clipby_nil in Hcl. inversion Hcl; subst. reflexivity.
-      + destruct (clipby_cons_ok _ _ _ _ _ _ _ _ Hcl) as (_ & _ & a' & c' & ->). reflexivity.
     - (* bounds *)
       assert (Hw : is_area_word (lower typ) = true) by (unfold is_area_word; rewrite Hty, ?orb_true_r; reflexivity).
       rewrite switch_shared in Hsw; [|exact Hnb|exact Hne|left; unfold shared_any; rewrite Hty, ?orb_true_r; reflexivity].
@@ -671,7 +669,7 @@ Section P.
       rewrite switch_shared in Hsw; [|exact Hnb|exact Hne|right; split; [reflexivity|unfold shared_noclip; rewrite Hty, ?orb_true_r; reflexivity]].
       destruct (parse_area false (typ :: vs1)) as [[rest a]| | |] eqn:Hpa; try discriminate.
       cbn [lift] in Hsw. inversion Hsw; subst h. eapply Hshared; [reflexivity|exact Hw|reflexivity].
-    - (* mvt *) apply beq_true in Hty. rewrite (Hunknown "mvt"%string (or_intror eq_refl) Hty).
+    - (* mvt *) apply beq_true in Hty. rewrite (Hunknown Hty).
       rewrite Hty in Hsw. unfold AreaParse.search_switch in Hsw. lits_in Hsw. cbn [orb] in Hsw.
       cbn beta iota in Hsw.
       destruct (parse_rect_area (lit "mvt") vs1) as [[[vs' a] tl]| | |]; cbn [bind] in Hsw; try discriminate.
@@ -854,13 +852,13 @@ Section P.
     destruct (clipby_loop _ _ _ _ _) as [[obj tile]| | |]; reflexivity.
   Qed.
 
-  (* ================================================================ lfs.obj is an object, except for GEO *)
+  (* ================================================================ lfs.obj is an object *)
 
   Lemma switch_obj_nonnil cmd clip l vs h :
-    is_nearby cmd = false -> types_has cmd l = true -> beq l "geo" = false ->
+    is_nearby cmd = false -> types_has cmd l = true ->
     search_switch cmd clip l vs = Ok h -> h_obj h <> ANil.
   Proof.
-    intros Hnb Hty Hgeo. rewrite (types_not_nearby _ _ Hnb), Hgeo in Hty. cbn [orb] in Hty.
+    intros Hnb Hty. rewrite (types_not_nearby _ _ Hnb) in Hty.
     unfold AreaParse.search_switch, AreaParse.parse_rect_area.
     repeat step; try discriminate; intros H; inversion H; subst; cbn [h_obj]; try discriminate.
     all: repeat match goal with E : _ || _ = false |- _ => apply orb_false_iff in E; destruct E end.
@@ -878,19 +876,24 @@ Section P.
     - intros H. apply clipby_cons_ok in H. destruct H as (_ & _ & H). auto.
   Qed.
 
-  Theorem search_obj_nonnil cmd fence clip typ vs1 r :
-    is_nearby cmd = false -> beq (lower typ) "geo" = false ->
-    search_area cmd fence clip false (typ :: vs1) = Ok r -> s_obj r <> ANil.
+  (* every accepted WITHIN / INTERSECTS area — any flags, the BOUNDS shorthand included — leaves a
+     search object *)
+  Theorem search_obj_nonnil cmd fence clip outb vs r :
+    is_nearby cmd = false ->
+    search_area cmd fence clip outb vs = Ok r -> s_obj r <> ANil.
   Proof.
-    intros Hnb Hgeo Hs. unfold AreaParse.search_area in Hs.
-    destruct (need_tok_cases (typ :: vs1)) as [E|(t & vs' & Heq & Hne & E)]; rewrite E in Hs; cbn [bind] in Hs;
-      cbn beta iota in Hs; [discriminate|]. inversion Heq; subst t vs'; clear Heq.
-    cbn [andb] in Hs. cbn beta iota in Hs. rewrite Hnb, andb_false_r, orb_false_r in Hs.
+    intros Hnb Hs. unfold AreaParse.search_area in Hs.
+    destruct (need_tok_cases vs) as [E|(t & vs' & -> & Hne & E)]; rewrite E in Hs; cbn [bind] in Hs;
+      cbn beta iota in Hs; [discriminate|].
+    destruct (if outb && negb (is_nearby cmd)
+              then match pf t with Some _ => (t :: vs', lit "BOUNDS", true) | None => (vs', t, false) end
+              else (vs', t, false)) as [[vs1 typ] outreset].
+    rewrite Hnb, andb_false_r, orb_false_r in Hs.
     destruct (types_has cmd (lower typ)) eqn:Hty; cbn [negb] in Hs; [|discriminate].
     destruct (search_switch cmd clip (lower typ) vs1) as [h| | |] eqn:Hsw; cbn [bind] in Hs; try discriminate.
     destruct (clipby_loop _ _ _ _ _) as [[obj tile]| | |] eqn:Hcl; cbn [bind] in Hs; try discriminate.
     inversion Hs; subst r; cbn [s_obj].
-    pose proof (switch_obj_nonnil _ _ _ _ _ Hnb Hty Hgeo Hsw) as Hnn.
+    pose proof (switch_obj_nonnil _ _ _ _ _ Hnb Hty Hsw) as Hnn.
     destruct (clipby_obj _ _ _ _ _ _ _ Hcl) as [->|(a & c & ->)]; [exact Hnn|discriminate].
   Qed.
 End P.
@@ -913,22 +916,36 @@ Definition sec0 (_ _ _ _ _ : Z) : bool := true.
 Definition lookup0 (_ _ : bytes) : lookupT := LFound.
 
 Definition search0 := search_area lower0 pf0 gj0 sec0 lookup0.
+Definition search0_pinned := search_area_pinned lower0 pf0 gj0 sec0 lookup0.
 Definition test0 := test_tail lower0 pf0 gj0 sec0 lookup0.
 
 Definition toks (l : list string) : list bytes := map lit l.
 
-(* WITHIN key GEO: accepted, lfs.obj == nil (the server then dereferences it) *)
-Lemma geo_nil_witness :
-  exists vs r, search0 CWithin false false false vs = Ok r /\ s_obj r = ANil.
-Proof. exists (toks ["GEO"%string]). eexists. split; [vm_compute; reflexivity|reflexivity]. Qed.
+(* pinned code, WITHIN key GEO: accepted, lfs.obj == nil (the server then dereferenced it); the repaired
+   code refuses the word *)
+Lemma geo_nil_pinned_witness :
+  (exists vs r, search0_pinned CWithin false false false vs = Ok r /\ s_obj r = ANil) /\
+  search0 CWithin false false false (toks ["GEO"%string]) = Err (EInvalidArg (lit "GEO")).
+Proof.
+  split; [|vm_compute; reflexivity].
+  exists (toks ["GEO"%string]). eexists. split; [vm_compute; reflexivity|reflexivity].
+Qed.
 
-(* INTERSECTS key CLIP GET k i is refused, INTERSECTS key CLIP GET k i CLIPBY BOUNDS … is not *)
-Lemma clip_get_witness :
-  search0 CIntersects false true false (toks ["GET"; "k"; "i"]%string)
-    = Err (EInvalidArg (lit "cannot clip with get")) /\
-  exists r, search0 CIntersects false true false (toks ["GET"; "k"; "i"; "CLIPBY"; "BOUNDS"; "0"; "0"; "1"; "1"]%string) = Ok r
-            /\ s_clip r = true /\ s_obj r = AClip (AGet (lit "k") (lit "i")) (ABounds 0 0 4607182418800017408 4607182418800017408).
-Proof. split; [vm_compute; reflexivity|]. eexists. split; [vm_compute; reflexivity|split; reflexivity]. Qed.
+(* pinned code: INTERSECTS key CLIP GET k i is refused, INTERSECTS key CLIP GET k i CLIPBY BOUNDS … is
+   not; the repaired code refuses both *)
+Lemma clip_get_pinned_witness :
+  (search0_pinned CIntersects false true false (toks ["GET"; "k"; "i"]%string)
+     = Err (EInvalidArg (lit "cannot clip with get")) /\
+   exists r, search0_pinned CIntersects false true false
+               (toks ["GET"; "k"; "i"; "CLIPBY"; "BOUNDS"; "0"; "0"; "1"; "1"]%string) = Ok r
+             /\ s_clip r = true
+             /\ s_obj r = AClip (AGet (lit "k") (lit "i")) (ABounds 0 0 4607182418800017408 4607182418800017408)) /\
+  search0 CIntersects false true false (toks ["GET"; "k"; "i"; "CLIPBY"; "BOUNDS"; "0"; "0"; "1"; "1"]%string)
+    = Err (EInvalidArg (lit "cannot clip with get")).
+Proof.
+  split; [|vm_compute; reflexivity].
+  split; [vm_compute; reflexivity|]. eexists. split; [vm_compute; reflexivity|split; reflexivity].
+Qed.
 
 (* TILE 0 0 +1: Atoi accepts the sign, ParseUint does not *)
 Lemma tile_sign_witness :
